@@ -144,15 +144,15 @@ pub fn builtin_filter_map(
 
 #[builtin]
 pub fn builtin_foldl(
-	func: NativeFn!((Val, Either![Val, char]) -> Val),
+	func: NativeFn!((Val, Either![Thunk<Val>, char]) -> Val),
 	arr: Either![ArrValue, IStr],
 	init: Val,
 ) -> Result<Val> {
 	let mut acc = init;
 	match arr {
 		Either2::A(arr) => {
-			for i in arr.iter() {
-				acc = func.call(acc, Either2::A(i?))?;
+			for i in arr.iter_lazy() {
+				acc = func.call(acc, Either2::A(i))?;
 			}
 		}
 		Either2::B(arr) => {
@@ -166,15 +166,15 @@ pub fn builtin_foldl(
 
 #[builtin]
 pub fn builtin_foldr(
-	func: NativeFn!((Either![Val, char], Val) -> Val),
+	func: NativeFn!((Either![Thunk<Val>, char], Val) -> Val),
 	arr: Either![ArrValue, IStr],
 	init: Val,
 ) -> Result<Val> {
 	let mut acc = init;
 	match arr {
 		Either2::A(arr) => {
-			for i in arr.iter().rev() {
-				acc = func.call(Either2::A(i?), acc)?;
+			for i in arr.iter_lazy().rev() {
+				acc = func.call(Either2::A(i), acc)?;
 			}
 		}
 		Either2::B(arr) => {
